@@ -51,11 +51,13 @@ func checkC15(r *Run) {
 			}
 			r1.OK(key, acc.In.Pos(), "atomic.AddUint32(&c.idLast, %d)", d)
 		case "store":
-			if initID == nil || !c.onlyCalledFrom(acc.Fn, initID, 0) {
+			initM := c.Method("BaseClient", "init")
+			inInit := initM != nil && c.onlyCalledFrom(acc.Fn, initM, 0)
+			if !inInit && (initID == nil || !c.onlyCalledFrom(acc.Fn, initID, 0)) {
 				r1.Bad(key, acc.In.Pos(), "the id counter is overwritten (atomic.StoreUint32) outside initID: a concurrent draw between the add and the store is rewound and identifiers are handed out twice")
 				continue
 			}
-			r1.OK(key, acc.In.Pos(), "StoreUint32 only in initID")
+			r1.OK(key, acc.In.Pos(), "StoreUint32 only during (*BaseClient).init (directly or in initID)")
 		case "load":
 			r1.OK(key, acc.In.Pos(), "atomic load")
 		default:
